@@ -86,6 +86,12 @@ func (p *prefixedReadSeekCloser) Seek(offset int64, whence int) (int64, error) {
 		return 0, fmt.Errorf("seeking bytes: %w", err)
 	}
 
+	if offset == skipBytes {
+		// nothing to skip in the rest: it may be exhausted (or a no-op reader)
+		// and report io.EOF even for a zero shift.
+		return 0, nil
+	}
+
 	return p.rest.Seek(offset-skipBytes, whence)
 }
 
